@@ -21,7 +21,7 @@ NEXT Next
 CHECK_DEADLOCK FALSE
 """ + ("INVARIANT FoldIsValue\nINVARIANT MarkOrderIrrelevant\nINVARIANT UncountedIgnoredIffEnforced\n" if mode == "marks" else "") \
         + ("INVARIANT Emit\n" if emit else "")
-    return core.run_tlc("DominionImportMC", cfg, workers=16, timeout=3000, heap="6g")
+    return core.run_tlc("DominionImportMC", cfg, workers=16, timeout=3000, heap="6g", coverage=True)
 
 
 def mark_json(m, rng):
